@@ -471,3 +471,35 @@ def cond_equiv(c1, c2):
         same = same and (a == b)
         opp = opp and (a != b)
     return 1 if same else (-1 if opp else 0)
+
+
+def whole(expr):
+    """the array an expression reads as a whole: `a[:]` and `a` denote the same values"""
+    while isinstance(expr, ast.Subscript) and isinstance(expr.slice, ast.Slice) and expr.slice.lower is None and expr.slice.upper is None \
+            and expr.slice.step is None:
+        expr = expr.value
+    return expr
+
+
+def negated(expr):
+    """operand of a negation, whatever spells it (`-a`, `-a[:]`, `np.negative(a)`, `-1 * a`, `a * -1`), else None"""
+    if isinstance(expr, ast.UnaryOp) and isinstance(expr.op, ast.USub):
+        return whole(expr.operand)
+    if isinstance(expr, ast.Call) and (ast.unparse(expr.func) in ("np.negative", "numpy.negative")) and len(expr.args) == 1 and not expr.keywords:
+        return whole(expr.args[0])
+    if isinstance(expr, ast.BinOp) and isinstance(expr.op, ast.Mult):
+        for a, b in ((expr.left, expr.right), (expr.right, expr.left)):
+            if isinstance(a, ast.UnaryOp) and isinstance(a.op, ast.USub) and isinstance(a.operand, ast.Constant) and a.operand.value == 1:
+                return whole(b)
+    return None
+
+
+def copies_into(stmt):
+    """(destination, source) when the statement overwrites every element of an array in place: `d[:] = s` or `np.copyto(d, s)`"""
+    if isinstance(stmt, ast.Assign) and len(stmt.targets) == 1 and isinstance(stmt.targets[0], ast.Subscript) \
+            and whole(stmt.targets[0]) is not stmt.targets[0]:
+        return whole(stmt.targets[0]), stmt.value
+    if isinstance(stmt, ast.Expr) and isinstance(stmt.value, ast.Call) and ast.unparse(stmt.value.func) in ("np.copyto", "numpy.copyto") \
+            and len(stmt.value.args) == 2 and not stmt.value.keywords:
+        return stmt.value.args[0], stmt.value.args[1]
+    return None
